@@ -67,6 +67,9 @@ def states(tier, seed):
     # (e') every ordered pair of the configuration menu executed in a FRESH interpreter: B after A must equal B alone
     for a_, b_ in itertools.permutations(range(len(FRESH_MENU)), 2):
         st.append(dict(part="fresh", a=a_, b=b_, fam=fam))
+    # (e'') the mesh generator: every ordered pair of mesh dictionaries (also twice the same), second one compared with a fresh interpreter
+    for a_, b_ in itertools.product(range(len(GEN_MENU)), repeat=2):
+        st.append(dict(part="genfresh", a=a_, b=b_, fam=fam))
     if tier == "thorough":
         # three problems, two operations each: all 90 interleavings
         for perm in sorted(set(itertools.permutations([0, 0, 1, 1, 2, 2]))):
@@ -121,6 +124,58 @@ def config_menu(tier):
             continue
         out.append(dict(kind="multisec", nsec=nsec, user=user, le=le, shift=shift))
     return out
+
+
+GEN_MENU = [
+    dict(num_y=7, num_x=2, wing_type="rect", symmetry=True),
+    dict(num_y=7, num_x=2, wing_type="rect", symmetry=True, span_cos_spacing=0.5),
+    dict(num_y=7, num_x=2, wing_type="rect", symmetry=False, span_cos_spacing=0.5),
+    dict(num_y=7, num_x=3, wing_type="rect", symmetry=True, span_cos_spacing=0.3, chord_cos_spacing=0.5),
+    dict(num_y=5, num_x=3, wing_type="rect", symmetry=False, span_cos_spacing=1.0, chord_cos_spacing=0.5),
+    dict(num_y=7, num_x=2, wing_type="CRM", symmetry=True, num_twist_cp=3),
+    dict(num_y=7, num_x=3, wing_type="CRM", symmetry=False, num_twist_cp=3),
+    dict(num_y=7, num_x=2, wing_type="rect", symmetry=True, span_cos_spacing=0.5, span=9.0, root_chord=1.2, offset=np.array([1.0, 0.0, 0.5])),
+]
+
+
+def gen_call(k):
+    """one call of the documented mesh generator with a private copy of menu entry k; returns (arrays, dictionary unchanged?)"""
+    from openaerostruct.geometry.utils import generate_mesh
+
+    d = {key: (v.copy() if isinstance(v, np.ndarray) else v) for key, v in GEN_MENU[k].items()}
+    before = {key: (v.copy() if isinstance(v, np.ndarray) else v) for key, v in d.items()}
+    out = generate_mesh(d)
+    arrays = [np.array(a, dtype=float) for a in (out if isinstance(out, tuple) else (out,))]
+    same = set(d) == set(before) and all(np.array_equal(d[key], before[key]) for key in before)
+    return arrays, same
+
+
+def part_genfresh(s):
+    a, b = s["a"], s["b"]
+    alone = fresh_digest(dict(gens=[b]), s["fam"])
+    after = fresh_digest(dict(gens=[a, b]), s["fam"])
+    if alone[0] == "ERROR":
+        raise RuntimeError("fresh-process job failed for mesh dictionary %d: %s" % (b, alone[1]))
+    viol, val = [], 2
+    if after[0] == "ERROR":
+        viol.append(dict(sig=dict(oracle="fresh_process_pair", kind="exception", what="generate_mesh"), msg="generate_mesh(%r) fails after generate_mesh(%r) in a fresh process: %s" % (GEN_MENU[b], GEN_MENU[a], after[1][-200:]), measure=1.0))
+    elif after[0] != alone[0]:
+        viol.append(dict(sig=dict(oracle="fresh_process_pair", kind="different_results", what="generate_mesh"), msg="generate_mesh(%r) returns a different mesh when generate_mesh(%r) was called before it in the same (fresh) process" % (GEN_MENU[b], GEN_MENU[a]), measure=1.0))
+    # in this (long-lived) process: the history a, b, a, b returns the same arrays for the same dictionary and leaves the dictionaries alone
+    outs = []
+    for k in (a, b, a, b):
+        arrs, same = gen_call(k)
+        val += 1
+        if not same:
+            viol.append(dict(sig=dict(oracle="user_dictionary_unchanged", what="generate_mesh"), msg="generate_mesh modifies the mesh dictionary %r" % GEN_MENU[k], measure=1.0))
+        if not all(np.all(np.isfinite(x)) for x in arrs):
+            viol.append(dict(sig=dict(oracle="finite", what="generate_mesh"), msg="generate_mesh(%r) returns non-finite values" % GEN_MENU[k], measure=1.0))
+        outs.append(arrs)
+    for i, j in ((0, 2), (1, 3)):
+        val += 1
+        if len(outs[i]) != len(outs[j]) or not all(x.shape == y.shape and np.array_equal(x, y) for x, y in zip(outs[i], outs[j])):
+            viol.append(dict(sig=dict(oracle="repeatable", what="generate_mesh"), msg="generate_mesh returns different arrays for the same dictionary %r on the second call of the history (a, b, a, b), other dictionary %r" % (GEN_MENU[(a, b)[i]], GEN_MENU[(a, b)[1 - i]]), measure=1.0))
+    return dict(viol=viol, nontrivial=True, digest="gen:%d:%d:%s" % (a, b, after[0][:8]), transitions=6, validated=val)
 
 
 def run_state(s):
@@ -657,7 +712,8 @@ def fresh_digest(cfgs, fam):
     key = (json.dumps(cfgs, sort_keys=True), fam)
     if key not in _FRESH:
         env = dict(os.environ)
-        r = subprocess.run([sys.executable, "-W", "ignore", "-m", "oasmc.pairjob", json.dumps(dict(cfgs=cfgs, fam=fam))], capture_output=True, text=True, env=env, cwd=os.getcwd())
+        job = dict(cfgs, fam=fam) if isinstance(cfgs, dict) else dict(cfgs=cfgs, fam=fam)
+        r = subprocess.run([sys.executable, "-W", "ignore", "-m", "oasmc.pairjob", json.dumps(job)], capture_output=True, text=True, env=env, cwd=os.getcwd())
         line = [ln for ln in r.stdout.splitlines() if ln.startswith("DIGEST ")]
         if r.returncode != 0 or not line:
             _FRESH[key] = ("ERROR", (r.stderr or r.stdout)[-600:])
